@@ -767,6 +767,7 @@ class Prover:
         self.eng = eng
         self.obs = {}
         self.samples = []
+        self.case_reached = {}      # contract case (per definition instance) -> reached by some path (vacuity report)
 
     def ob(self, name):
         if name not in self.obs:
